@@ -452,8 +452,9 @@ class Frame:
             # a closure that creates something fresh per call (a virtual target) must not be applied per index:
             # all elements would collapse into its single call site
             return ("idx", t, i) if _generative(r, self._closure_path(t[2]), self.ev.prog.bodies) else r
-        if tag == "take" or tag == "rev":
+        if tag == "take":
             return self.index(t[1], i)
+        # (position i of a reversed stream is position len-1-i of its source: left as an index into the reversed stream itself)
         if tag == "adt" and t[1].endswith("ops::range::Range"):
             d = dict(t[3])
             st = d.get("start")
